@@ -1,11 +1,18 @@
 (* C03 - Reader iterators: seek then next yields first entry >= target, from any state.
-   Proved here at the block-iterator level (block.c) for every well-formed block and
-   every reachable iterator state; the reader-level lifting (index / block hand-over,
-   block_offset bookkeeping) is Properties_C03 part 2 in proofs/ReaderProofs.v when
-   present, and is validated step by step against the implementation and the
-   sorted-list cursor by engine rd. *)
+   Proved at two levels.  Block iterator (block.c): T03a/T03b, for every well-formed
+   block and every reachable iterator state.  Reader iterator (reader.c): T03c/T03d,
+   for every table that satisfies table_ok (well-formed index and data blocks, index
+   values = distinct block offsets that get_block loads, separators between the last
+   key of a block and the first key of the next) every history of next / seek calls on
+   each of the four iterator kinds equals the same history run on a cursor over the
+   sorted list of all entries: seek(k) moves the cursor to the first entry >= k, next
+   delivers the entry under the cursor if it meets the bound and otherwise fails, and
+   failure is sticky until the next seek.  That the files produced by the writer (or by
+   any legal encoder) satisfy table_ok is the subject of C01/C09/C11; the tie of the
+   reader model to reader.c/block.c is engine rd (step by step, all four kinds, several
+   iterators of one reader interleaved, buffers checked after the following call). *)
 From Coq Require Import NArith List Lia.
-From Mtbl Require Import model.Bytes model.Order spec.Parse model.Reader proofs.BlockProofs.
+From Mtbl Require Import model.Bytes model.Order spec.Parse model.Reader proofs.BlockProofs proofs.ReaderProofs.
 Local Open Scope N_scope.
 
 (* T03a: block_iter_seek.  For every well-formed non-empty block b (offsets and keys
@@ -60,3 +67,45 @@ Example T03_example_run :
   block_seek ex_block (mkbs true 2 1) [1; 1] = Ok (mkbs true 1 0) /\
   block_seek ex_block (mkbs false 0 2) [4] = Ok (mkbs false 0 2).
 Proof. vm_compute. repeat split. Qed.
+
+(* T03c: reader level.  [run_model] runs reader_iter_next / reader_iter_seek of the
+   reader model over a list of operations; [run_spec] runs the same list on a cursor
+   (option nat: position in the sorted entry list, None = failed) with
+     next  : deliver entry p and move to p+1 if p is inside the list and the entry
+             satisfies the bound of the iterator kind, else fail (cursor None);
+     seek k: cursor := number of entries with key < k  (= first entry >= k).
+   For the iterator of mtbl_source_iter and for those of get / get_prefix / get_range,
+   after ANY history the model answers what the cursor answers. *)
+Theorem T03c_reader_history_iter : forall decompress r ib iridx nb B Rr,
+  table_ok decompress r ib iridx nb B Rr ->
+  exists it, reader_iter decompress r = Ok (Some it) /\
+  forall ops, run_model decompress r it ops = Ok (run_spec nb B KIter (it_k it) (Some 0%nat) ops).
+Proof. exact table_history_iter. Qed.
+Print Assumptions T03c_reader_history_iter.
+
+Theorem T03c_reader_history_lookup : forall decompress r ib iridx nb B Rr,
+  table_ok decompress r ib iridx nb B Rr ->
+  forall kind key bound,
+  match reader_iter_init decompress r kind key bound with
+  | Ok (Some it) => forall ops, run_model decompress r it ops = Ok (run_spec nb B kind bound (Some (gfirst nb B key)) ops)
+  | Ok None => gfirst nb B key = total nb B          (* NULL iterator: no entry >= key *)
+  | _ => False
+  end.
+Proof. exact table_history_lookup. Qed.
+Print Assumptions T03c_reader_history_lookup.
+
+(* T03d: the cursor positions used above mean what the statement says: gfirst k is the
+   unique position p with every entry before p < k and the entry at p (if any) >= k,
+   and the entry list is strictly increasing *)
+Theorem T03d_cursor_meaning : forall decompress r ib iridx nb B Rr,
+  table_ok decompress r ib iridx nb B Rr ->
+  (forall p q, (p < q < total nb B)%nat -> bcmp (gkey nb B p) (gkey nb B q) = Lt) /\
+  (forall k p, (p <= total nb B)%nat ->
+     (forall q, (q < p)%nat -> bcmp (gkey nb B q) k = Lt) ->
+     ((p < total nb B)%nat -> bcmp (gkey nb B p) k <> Lt) -> gfirst nb B k = p).
+Proof.
+  intros decompress r ib iridx nb B Rr T. destruct T. split.
+  - intros p q H. eapply gkey_lt; eassumption.
+  - intros k p H1 H2 H3. eapply gfirst_unique; eassumption.
+Qed.
+Print Assumptions T03d_cursor_meaning.
